@@ -61,10 +61,20 @@ def tables():
         zoo.OtherLink: {"v1side": "#", "v2side": "#"},
         TwoEndedLink: {"v1side": "+", "v2side": "+"},
     }
-    return {"default": t0, "overrides": t1, "grandparents": t2, "userfunc": t3, "otherlinks": t4}
+    t5 = {
+        # multiple inheritance: VBoth(VPlain, VFancy) must resolve to VFancy (nearest configured class in its MRO),
+        # MixEdge(Marker, DirectedEdge) to DirectedEdge
+        Vertex: dict(base_v),
+        zoo.VFancy: {"type": "class", "show_attrs": ["idx"], "title_format": "fancy_{idx}"},
+        DirectedEdge: {"v1side": "", "v2side": ">"},
+        UnDirectedEdge: {"v1side": "", "v2side": ""},
+        zoo.DSub: {"v1side": "o", "v2side": ">>"},
+    }
+    return {"default": t0, "overrides": t1, "grandparents": t2, "userfunc": t3, "otherlinks": t4, "multi": t5}
 
 
-TABLE_ALLOWS_OTHER = {"default": False, "overrides": False, "grandparents": True, "userfunc": False, "otherlinks": True}
+TABLE_ALLOWS_OTHER = {"default": False, "overrides": False, "grandparents": True, "userfunc": False, "otherlinks": True,
+                      "multi": False}
 
 
 def nearest(cls, table):
@@ -88,7 +98,7 @@ def floors(ctx):
     return {"evaluations": 1000 if q else 10000, "relation_lines_checked": 3000 if q else 30000,
             "graphs_with_selfloop": 50, "graphs_with_parallel": 50, "graphs_with_mixed_kinds": 50,
             "links_leaving_universe": 50, "empty_universe": 3, "isolated_members": 100,
-            "subclass_resolved_via_ancestor": 100}
+            "subclass_resolved_via_ancestor": 100, "multiple_inheritance_members": 50}
 
 
 def run_case(ctx, spec, tname):
@@ -124,6 +134,8 @@ def run_case(ctx, spec, tname):
         exp_hdr[(typ, title(v, ref), type(v).__name__)] += 1
         if type(v) not in ref:
             ctx.count("subclass_resolved_via_ancestor")
+        if len(type(v).__bases__) > 1:
+            ctx.count("multiple_inheritance_members")
         if not v.links:
             ctx.count("isolated_members")
     got_hdr = collections.Counter()
